@@ -912,7 +912,25 @@ class ProdECDH(Driver):
             if not ok or got != exp:
                 return BAD("wrong-multiple" if ok else "exception", "%s = %s" % (name, show(exp)), "[%s] %s" % (case["config"], show(got) if ok else v),
                            n=2, clause="ecdh", config=case["config"])
-        return OK("d1=d2" if d1 == d2 else "d1!=d2", n=2)
+        # the peer's key in the other shapes a caller may hold it in: a list, a Point of this generator, and a Point object
+        # that belongs to ANOTHER curve (must be refused, or at least never yield a point off this curve)
+        for name, arg in (("list", list(Q2)), ("Point", g.Point(*Q2))):
+            ok, v = _try(lambda: generate_shared_public_key(d1, arg, g))
+            got = norm(v, p) if ok else v
+            if not ok or got != exp:
+                return BAD("wrong-multiple" if ok else "exception", "shared(d1, Q2 as %s) = %s" % (name, show(exp)), show(got) if ok else v,
+                           n=4, clause="ecdh-argument-type", config=case["config"])
+        other = [x for x in self.names if x != case["curve"]][0]
+        ok, og = _try(prod_generators, other)
+        if ok:
+            Qo = d2 * og[case["config"]]
+            ok, v = _try(lambda: generate_shared_public_key(d1, Qo, g))
+            if ok:
+                got = norm(v, p)
+                if got is not None and not ec.on_curve(got, p, a, c["b"]):
+                    return BAD("off-curve-result", "a Point of %s is refused as a %s key (or the result is a %s point)" % (other, case["curve"], case["curve"]),
+                               "returned %s, not on the curve" % show(got), n=5, clause="ecdh-foreign-point", config=case["config"])
+        return OK("d1=d2" if d1 == d2 else "d1!=d2", n=5)
 
     def nontrivial(self, cls):
         return cls != "d1=d2"
